@@ -24,10 +24,10 @@ DESIGN_REF = "DESIGN.md section 4 C06"
 
 RULE = ("(M) exhaustive TLC runs of FilterSem.tla: quick = all expressions of depth <= 2 with binary AND/OR over the atoms "
         "{*, k1:v1, .unit:ns/op, .unit:B/op} plus key:(a) and ternary AND/OR over literals, on all 124 results with 1..5 "
-        "measurements over {rescaled ns/op->sec/op, plain B/op} x {k1:v1 true, false}; thorough = depth <= 2 over six atoms "
-        "(two whole-result terms, a regexp) with ternary nodes over depth <= 1 on 248 results, depth-3 expressions over three "
-        "atoms with one shallow operand at the top, and all depth <= 3 binary expressions over two atoms on the word-boundary "
-        "results; invariants TestOK, AllOK, AnyOK, MatchPure, ApplyOK, Repeatable; negative control (shared leaf masks) must fail. "
+        "measurements over {rescaled ns/op->sec/op, plain B/op} x {k1:v1 true, false}; thorough adds depth <= 2 over six atoms "
+        "(two whole-result terms, a regexp) on 248 results, ternary nodes over all depth <= 1 expressions over three atoms, "
+        "depth-3 expressions over three atoms with one shallow operand at the top, and all depth <= 3 binary expressions "
+        "over two atoms, the last three on 12 word-boundary results (n = W, W+1, 2W+1); invariants TestOK, AllOK, AnyOK, MatchPure, ApplyOK, Repeatable; negative control (shared leaf masks) must fail. "
         "(G) one replay case per generated expression (depth <= 2 over eight atoms covering every kind of term, same-key "
         "disjunctions in context, ternary nodes, fixed lists on top; thorough adds depth 3), each on 10 model results in 2-3 "
         "real layouts and 5 spellings (+ projection spelling); zero-measurement results are outside the domain. "
@@ -54,8 +54,9 @@ def run(ctx):
     if q:
         ctx.tlc("FilterSem.tla", "FilterSem_mc_quick.cfg", timeout=1500)
     else:
-        for cfg in ("FilterSem_mc_quick.cfg", "FilterSem_mc_thorough.cfg", "FilterSem_mc_thorough2.cfg", "FilterSem_mc_thorough3.cfg"):
-            ctx.tlc("FilterSem.tla", cfg, timeout=3000, heap=None)
+        for cfg in ("FilterSem_mc_quick.cfg", "FilterSem_mc_thorough.cfg", "FilterSem_mc_thorough1b.cfg",
+                    "FilterSem_mc_thorough2.cfg", "FilterSem_mc_thorough3.cfg"):
+            ctx.tlc("FilterSem.tla", cfg, timeout=3000)
     # negative control: a .unit leaf that hands out one shared mask must be caught by the invariants
     r = ctx.tlc("FilterSem.tla", "FilterSem_neg_shared.cfg", timeout=600, expect_ok=False, count=False, label="negative-control")
     if not (r.error and "Invariant" in r.error):
@@ -113,6 +114,8 @@ def run(ctx):
 
 def event_sig(e):
     """Stable class of a rejected recorded event, recomputed from the event alone."""
+    if e.get("err"):
+        return "panic" if e["err"].startswith("panic") else "eval-error"
     n = len(e["res"]["meas"])
     wc = "w0" if n <= 32 else ("w1" if n <= 64 else "w2+")
     if not e.get("pure", True):
@@ -135,9 +138,15 @@ def event_sig(e):
     return "test-mismatch:" + wc
 
 
+MAX_REJECTS = 8
+
+
 def validate(ctx, events):
+    """High-water-mark validation; a rejected event is classified, reported, dropped, and the
+    rest re-validated.  After MAX_REJECTS rejected events the remaining ones are left
+    unjudged (the check fails anyway)."""
     cur = events
-    for rnd in range(20):
+    for rnd in range(MAX_REJECTS + 1):
         p = ctx.write_ndjson("fs-trace-r%d.ndjson" % rnd, cur)
         ok, hwm, r = ctx.trace_validate("FilterSem_trace.tla", "FilterSem_trace.cfg", p)
         if ok:
@@ -152,4 +161,6 @@ def validate(ctx, events):
         ctx.report([{"signature": event_sig(e), "detail": "recorded evaluation rejected by FilterSem_trace: %s" % e.get("q"),
                      "event": e, "family": "filtersem-trace"}], "trace validation")
         cur = cur[:hwm] + cur[hwm + 1:]
-    raise vlib.Infra("more than 20 rejected events")
+        if rnd == MAX_REJECTS - 1:
+            vlib.log("trace validation: %d events rejected, not judging the remaining %d" % (MAX_REJECTS, len(cur) - hwm))
+            return
